@@ -156,6 +156,29 @@ for _k, _v in SECOND_PASS.items():
     CLAIMED[_k]["text"] += _v
 for _k, _v in THIRD_PASS.items():
     CLAIMED[_k]["text"] += _v
+FOURTH_PASS = {
+ "C01": " Fourth pass: every CHECK writer parenthesises through sqlx.MayWrap; a DropIndex of an implicit index is not alterable; a regexp built around an identifier quotes and right-delimits it (decided on the regexp/syntax tree); every attribute the column writer consults is compared by the differ.",
+ "C02": " Fourth pass: a field of a sqlx.Has target is read only where its flag is known true (truth-table over the function's Has flags, reported where the function itself guards another read of the value); no self-comparison; a reported CHECK change is withheld only on a path that established d.Maria().",
+ "C03": " Fourth pass: LIKE patterns of the inspector's queries escape '_'; every column-clause shape the planner's column writer can emit before AUTOINCREMENT (CFG path enumeration) is matched by the inspector's pattern constant; converter arms decided by different attribute keys do not exclude each other; dynamic regular expressions quote and delimit identifiers.",
+ "C04": " Fourth pass: dependsOn examines every FK-declaring change kind; skipAutoChanges looks up only own-table columns in the dropped-column set; sorting by a classification function alone is stable.",
+ "C05": " Fourth pass: every registration of the SQLite driver wires the FK-aware transaction opener.",
+ "C06": " Fourth pass: every Dir.Files orders by name alone; every PreRunE completes the flags from the project file before folding --dir-format into the URL.",
+ "C07": " Fourth pass: the template function guarding the goose begin/end pragmas is true for every multi-line statement; enum/set values reach SQL text only through an escaping function (mysql.formatValues: known finding D36).",
+ "C08": " Fourth pass: the cursor invariant is also proved on error returns of methods whose callers carry on after the error; the text handed to Scanner.init/Scan is the caller's parameter, never reassigned.",
+ "C09": " Fourth pass: Executor.dir is restored on every path of ExecuteTo; FilesFromLastCheckpoint selects the last checkpoint.",
+ "C11": " Fourth pass: values derived from the revision list are not used after the list was re-read.",
+ "C12": " Fourth pass: LogError.Stmt is used only where it is known non-nil.",
+ "C13": " Fourth pass: every exit of the SQLite commit/rollback closures re-enables foreign keys; every identity decision over foreign-key violations uses all fields.",
+ "C14": " Fourth pass: the deferred restore is called on every path of its closure; the MySQL/PostgreSQL Snapshot accepts a database only on paths that counted its schemas/tables.",
+ "C15": " Fourth pass: no case-sensitive comparison under a case-insensitive guard on the same string; mysql.FormatType prints the time precision only under a non-zero guard.",
+ "C16": " Fourth pass: plan options received are forwarded to PlanChanges.",
+ "C17": " Fourth pass: scratch planner states inherit PlanOptions; a branch guarded by a comparison with a planner-state field writes that same field.",
+ "C18": " Fourth pass: every executed statement gets its Change; no strings.Trim* cutset with letters or digits.",
+ "C19": " Fourth pass: the indexes of an excluded column are found through the table's index parts; (*Diff).Extend returns the value that received the inherited SkipChanges; the selector pattern accepts the separator the selector list is split on.",
+ "C20": " Fourth pass: the two listed in-place normalisations of the planners are accepted only while the guard that makes them idempotent encloses the store.",
+}
+for _k, _v in FOURTH_PASS.items():
+    CLAIMED[_k]["text"] += _v
 
 NA = {}
 
